@@ -238,6 +238,9 @@ class CallMixin:
             return self.type_of_value(args[0])
         if name == 'isinstance':
             return VBool(self.isinstance_term(args[0], args[1]))
+        if name == 'super' and len(args) == 2:
+            c0 = args[0]
+            return VFunc('super', cls=c0.name, self=args[1])
         if name == 'super':
             fr = self.frame
             while fr is not None and fr.self_cls is None:
